@@ -187,7 +187,12 @@ class LinearOperator(Operator):
 
     def _set_adjoint(self):
         """Automatically create adjoint method."""
-        adj_fun = linear_adjoint(self.__call__, snp.zeros(self.input_shape, dtype=self.input_dtype))
+        # The adjoint is cached: construct it with concrete values even when first needed
+        # inside a jitted function, so that it does not hold on to tracers.
+        with jax.ensure_compile_time_eval():
+            adj_fun = linear_adjoint(
+                self.__call__, snp.zeros(self.input_shape, dtype=self.input_dtype)
+            )
         self._adj = lambda x: adj_fun(x)[0]
 
     def _set_gram(self):
